@@ -52,6 +52,14 @@ CLAIMED = {
              "identities); dump() newest-first; view(time) with a SYMBOLIC per-element time == recorded value interpolated by the reducer's documented rule "
              "(analytic decay / elapsed time / previous / linear), plus scalar grid times; dt in {1.0, 1.3}, duration {0,(dt),2dt}, in-place and not.",
         ref="6/C07"),
+    "C10": dict(
+        text="One updater application from an arbitrary symbolic parameter with 0-3 symbolic potentiating and depressing parts: param' = param + "
+             "B_up(reduce(pos)) - B_lo(reduce(neg)) for reductions {default, sum, mean, amax, custom passed at construction} x bounding {none, upper, lower, "
+             "both halves, full} x {power 1-3, scaled power, multiplicative, scaled multiplicative, sharp}; other parameters untouched; second application "
+             "after the default clear is a no-op. Range invariant (param in [min,max], magnitudes within the documented cap => param' in [min,max]) as a "
+             "one-step inductive obligation; sharp never moves further beyond a reached limit. All 4-operation (5 thorough) programs over {pos, neg, both, "
+             "read, update, update(clear=False), updatesome, clear} against a reference model of the accumulators.",
+        ref="6/C10"),
     "C13": dict(
         text="Temporal setters (dt, duration, inclusive) on records whose contents are symbolic markers: size formula (native float arithmetic, incl. "
              "non-representable ratios), the newest min(old,new) observations stay at the same steps-before-present positions, older new slots are zero, "
